@@ -174,3 +174,7 @@ pub use self::types::*;
 // re-export the type for web-time feature
 #[cfg(feature = "wasm32_web_time")]
 pub use deadline_support::Instant;
+
+// verification hook: virtual clock for deadline probes
+#[cfg(similar_verif)]
+pub use deadline_support::verif_clock;
